@@ -212,7 +212,7 @@ def gen_fancy(rng, malformed=False):
     return "v=%d %s" % (rng.random() < 0.1, ";".join(ops)), meta
 
 
-STATUS_RE = re.compile(rb"\[([=\- ]*)\] \d+/\d+ done, (\d+ failed, )?\d+/\d+ running$")
+STATUS_RE = re.compile(rb"\[([=\- ]*)\] \d+/\d+ done, (\d+ failed, )?(\d+)/\d+ running$")
 
 
 def fancy_monitor(run, line, meta, res):
@@ -249,6 +249,10 @@ def fancy_monitor(run, line, meta, res):
         bar = STATUS_RE.search(lines[0]).group(1)      # (the line may start with pending text: '\\r\\x1b[J', a logged message without newline)
         if len(bar) != 40:
             run.report_failure(None, "the bar is %d wide, not 40" % len(bar), where)
+        shown_count = int(STATUS_RE.search(lines[0]).group(3))
+        if not meta["malformed"] and shown_count != pr["shown"]:
+            run.report_failure(None, "the status line says %d running while %d commands were started and have not finished" % (shown_count, pr["shown"]), where)
+            return
         tl = lines[1:]
         if pr["shown"] > 8:
             if not tl or not re.match(rb"^\.\.\.and %d more$" % (pr["shown"] - 8), tl[-1]):
